@@ -318,8 +318,28 @@ let vfmode file =
     | "holes" :: _ | "closes" :: _ -> print_endline line
     | _ -> ()) (read_lines file)
 
+(* ---------------------------------------------------------------- C14 *)
+let c14 file =
+  let p = ref { p_min = zi 0; p_max = zi 0; p_spl = zi 1; p_res = zi 0; p_fill = zi 0 } and r = ref (zi 0) in
+  List.iter (fun line ->
+    match split line with
+    | "case" :: _ -> print_endline line
+    | "cfg" :: mn :: mx :: spl :: res :: fill :: r0 :: _ ->
+        p := { p_min = zi (int_of_string mn); p_max = zi (int_of_string mx); p_spl = zi (int_of_string spl);
+               p_res = zi (int_of_string res); p_fill = zi (int_of_string fill) };
+        r := zi (int_of_string r0); print_endline line
+    | "K" :: w :: c0 :: rest ->
+        let rec take n l = if n = 0 then [] else (match l with x :: t -> x :: take (n-1) t | [] -> []) in
+        let sizes = List.map (fun x -> zi (int_of_string x)) (take 15 rest) in
+        let ((c, this), r') = addblock !p !r sizes (w = "1") (zi (int_of_string c0)) in
+        r := r';
+        Printf.printf "K %s %s %s | %d %d %d\n" w c0 (String.concat " " (take 15 rest)) (iz c) (iz this) (iz r')
+    | "W" :: _ | "S" :: _ | "setup" :: _ -> print_endline line
+    | _ -> ()) (read_lines file)
+
 let () =
   match Array.to_list Sys.argv with
+  | [_; "c14"; f] -> c14 f
   | [_; "vf"; f] -> vfmode f
   | [_; "c17"; f] -> c17 f
   | [_; "c11"; f] -> c11 f
